@@ -47,11 +47,12 @@ def kani_group(label, names, complete, tier='quick', timeout=600, kind='hex'):
                 rp = kani_replay(ctx, n, r, kind)
                 ctx.violations.append((oid, rp[0], rp[1]))
         ctx.solver_ms += int(solver * 1000)
-        cmd = 'cargo kani -Z stubbing --harness <name> --exact   (crate build/kani_%s, includes %s/src/%s.rs by #[path])' % (kind, ctx.repo, 'hex' if kind == 'hex' else 'label')
+        cmd = 'cargo kani -Z stubbing --harness <name> --exact   (crate build/kani_%s, includes %s/src/%s.rs by #[path])' % (kind, ctx.repo, {'hex': 'hex', 'types': 'label'}.get(kind, '(dependency crates)'))
         if cmd not in ctx.checker_cmds:
             ctx.checker_cmds.append(cmd)
         return dict(obligations=ob, discharged=ok, kind='kani', complete=complete,
-                    bound=(None if complete else 'heap variant: symbolic Vec length <= 12 (VMAX)'),
+                    bound=(None if complete else ('heap variant: symbolic Vec length <= 12 (VMAX)' if kind == 'hex' else
+                                                 'element types u8/usize, emap capacity <= 3, micromap/microstack N = 3')),
                     back_end='Kani 0.68.0 -> CBMC 6.11 -> CaDiCaL', rows=rows)
 
     return dict(name=label, run=run, tier=tier, counts_as_proof=complete)
